@@ -126,7 +126,10 @@ def run(case):
         if inst is not None:
             nontriv += 1
             d = inst['dims']
-            cfgs = [{'entry': 'conelp', 'storage': 'dense', 'kkt': None}, {'entry': 'conelp', 'storage': 'sparse', 'kkt': None}]
+            cfgs = [{'entry': 'conelp', 'storage': 'dense', 'kkt': None}, {'entry': 'conelp', 'storage': 'sparse', 'kkt': None},
+                    # the documented 'refinement' option (number of iterative refinement steps of every KKT solve)
+                    {'entry': 'conelp', 'storage': 'dense', 'kkt': None, 'opts': {'refinement': 2}},
+                    {'entry': 'conelp', 'storage': 'dense', 'kkt': None, 'opts': {'refinement': 0}}]
             if not d['q'] and not d['s']:
                 cfgs.append({'entry': 'lp', 'storage': 'dense', 'kkt': None})
             if not d['s']:
@@ -155,7 +158,10 @@ def run(case):
             cfgs = [{'entry': 'coneqp', 'storage': 'dense', 'kkt': None}, {'entry': 'coneqp', 'storage': 'sparse', 'kkt': None},
                     # P stored as its lower triangle only (the documented convention), and with junk above the diagonal
                     {'entry': 'coneqp', 'storage': 'dense', 'kkt': None, 'junk': 0.0},
-                    {'entry': 'coneqp', 'storage': 'sparse', 'kkt': None, 'junk': 7.0}]
+                    {'entry': 'coneqp', 'storage': 'sparse', 'kkt': None, 'junk': 7.0},
+                    {'entry': 'coneqp', 'storage': 'dense', 'kkt': None, 'opts': {'refinement': 2}},
+                    {'entry': 'coneqp', 'storage': 'dense', 'kkt': None, 'opts': {'refinement': 3}},
+                    {'entry': 'coneqp', 'storage': 'dense', 'kkt': None, 'opts': {'refinement': 0}}]
             if not d['q'] and not d['s']:
                 cfgs.append({'entry': 'qp', 'storage': 'dense', 'kkt': None})
             if pd:
